@@ -127,7 +127,8 @@ def listing_groups(world, text):
 def compute_groups(c):
     acc = accept_for(c.opts)
     groups, nerr = worlds.discovered_groups(c.world, accept=(lambda t: acc(t)) if acc else None,
-                                            eligible=worlds.level_eligible(c.opts))
+                                            eligible=worlds.level_eligible(c.opts),
+                                            mod_accept=statement_accept(list(c.opts["modpat"])) if c.opts.get("modpat") else None)
     c.import_errors = nerr
     if c.opts.get("shuffle_seed") is not None and getattr(c, "listing", None) is not None:
         # the order inside each layer comes from the real listing (C11 ties the shuffle itself)
